@@ -30,6 +30,7 @@ fn main() {
         Some("run") if args.len() == 4 => run(&args[2], &args[3]),
         Some("oracle") if args.len() == 2 => oracle::serve(),
         Some("readjournal") if args.len() == 3 => oracle::read_journal(&args[2]),
+        Some("readcuts") if args.len() == 4 => oracle::read_cuts(&args[2], &args[3]),
         _ => usage(),
     };
     std::process::exit(code);
